@@ -158,5 +158,41 @@ PROPS.update({
     },
 })
 
+PROPS.update({
+    "C12": {
+        "level": "proof",
+        "text": "Kernel-checked: a panic in any hook surfaces as a panic JoinError with nothing running after it (C04/C05 theorems, which quantify over all runs including every crash point), the victim's pending and later senders complete with errors (C03.completes), the deliberate deadlock panic changes nothing of other actors (deadlock_panic_is_local), the wait-for map is never corrupted in any reachable state (graph_never_corrupted = the C15 invariant), asks to a dead actor are resumable. The lock is released before the panic (extracted). Real side: multi-actor histories with scripted panics at arbitrary handler positions, replayed on the protocol model, plus a poisoned-lock probe after every macro-step; single-actor scripts panic in on_start / k-th handler / k-th on_run / on_stop and are compared step by step.",
+        "note": PROOF_NOTE + " Isolation of Tokio tasks (a panic unwinds only its task) is a property of the runtime, assumed.",
+        "technique": "Lean 4 theorems on the actor model and on the wait-for protocol model + replay of real multi-actor histories on the model",
+        "monitors": ["C03", "C04", "C05", "C13"],
+        "extra": ["netcorr"],
+        "corr": corr(["mixed", "burst", "idle"]),
+        "extract_items": ["ask_protocol", "lifecycle"],
+        "assumptions": COMMON_ASSUME + ["a panic unwinds only the panicking task (Tokio)"],
+    },
+    "C14": {
+        "level": "proof",
+        "text": "Kernel-checked: hasPath_spec (the function translated from has_path decides reachability in >= 1 step for every graph: the len() bound always suffices), graph_covers (every unanswered in-flight ask has its edge in every reachable state), closes_panics (self-ask or any chain of in-flight asks back to the asker => the ask panics with the cycle path, inserts no edge, for every cycle length and creation order), waits_otherwise, no_one_left_waiting, asks_to_dead_are_lost, path_starts_with_caller. The protocol steps (check+insert under one lock, all four hooks scoped) are extracted. Real side: random ask topologies (cycles of length 1-5, timeouts, panics, kills) replayed on the model: every model-predicted deadlock must be a real panic with the same cycle path; translation differential on 11,886 graph queries.",
+        "note": PROOF_NOTE + " Asks awaited concurrently inside one hook are outside the property (sequential asks only).",
+        "technique": "Lean 4 proof (pigeonhole bound for the translated graph walk; protocol invariant) + replay of real histories on the protocol model",
+        "monitors": ["C03"],
+        "extra": ["netcorr", "tables"],
+        "corr": corr(["mixed"], nq=60, nt=500),
+        "extract_items": ["has_path", "format_cycle_path", "ask_protocol"],
+        "assumptions": COMMON_ASSUME,
+    },
+    "C15": {
+        "level": "proof",
+        "text": "Kernel-checked for every run of the protocol: graph_exact (the wait-for map is exactly the set of unanswered in-flight asks), sound (a deadlock is reported only for a self-ask or a chain in which every link is an in-flight unanswered ask), no_residue, ended_dont_count, answered_no_edge, and the stale-edge scenario is fine. These hold for the repaired protocol (edge cleared token-matched at reply time), which is what the extractor finds in the source; on the unrepaired source the shape lemma fails and the corpus history c15_stale_edge.net exhibits the false panic. Real side: histories replayed on the model with a snapshot of the real map (hook wait_for_edges) compared after every macro-step.",
+        "note": PROOF_NOTE + " Hook: read-only verif_hooks::wait_for_edges().",
+        "technique": "Lean 4 invariant proof on the wait-for protocol model + replay of real histories with graph snapshots",
+        "monitors": ["C03"],
+        "extra": ["netcorr", "tables"],
+        "corr": corr(["mixed"], nq=60, nt=500),
+        "extract_items": ["has_path", "format_cycle_path", "ask_protocol"],
+        "assumptions": COMMON_ASSUME,
+    },
+})
+
 NOT_APPLICABLE = {p: "check not built yet in this session (work in progress; see DESIGN.md §12 build order)" for p in
                   ["C%02d" % i for i in range(1, 21)]}
